@@ -207,7 +207,15 @@ pub fn generate(repo: &PathBuf) -> Result<String, String> {
     // evmlib verify_data_payment
     let ev = parse_file(&repo.join("evmlib/src/contract/payment_vault/mod.rs"))?;
     let vdp = toks(&free_fn(&ev, "verify_data_payment")?.block);
-    let chain_fails_on_invalid = has(&vdp, "if ! payment_verification_result . isValid { return Err");
+    // the `isValid` test must apply to every returned result, i.e. stand before (outside) the owned-hash branch
+    let chain_fails_on_invalid = match (
+        vdp.find("if ! payment_verification_result . isValid { return Err"),
+        vdp.find("if owned_quote_hashes . contains (& payment_verification_result . quoteHash)"),
+    ) {
+        (Some(v), Some(o)) => v < o,
+        (Some(_), None) => true,
+        _ => false,
+    };
     let chain_sums_owned = has(&vdp, "owned_quote_hashes . contains (& payment_verification_result . quoteHash)") && has(&vdp, "amount +=");
 
     // ant-evm: expiry
